@@ -8,7 +8,7 @@ CLAIMED = {
          T % "invariant by induction over the byte stream; Hoare-style output invariant over the Cli monad"),
  "C04": ("Theorems: every stream that is a concatenation of well-formed key units segmented greedily decodes to exactly the events of the units, from any non-CSI decoder state; N terminators give N Enters. Tie: spec-generated unit lists evaluated on the implementation (direct oracle), exhaustive byte-class streams and random malformed streams model vs implementation; constants regenerated from codes.rs/input.rs each run.",
          T % "unit-boundary invariant, induction over the unit list; constants translator"),
- "C17": ("Theorems for EVERY scalar value (no enumeration): encode_utf8 gives the well-formed encoding of the right length and decode inverts it (and conversely), char_pop_front takes exactly the first scalar off, char_count / char_byte_index / common_prefix_len agree with the character-level definitions on all well-formed text, every scalar >= U+0020 (DEL aside) typed as bytes decodes to one character event. Tie: all 1.1M scalars inside the harness against Rust's char/str, boundary scalars model vs implementation vs Python codec, end-to-end sessions.",
+ "C17": ("Theorems for EVERY scalar value (no enumeration): encode_utf8 gives the well-formed encoding of the right length and decode inverts it (and conversely), char_pop_front takes exactly the first scalar off, char_count / char_byte_index / common_prefix_len agree with the character-level definitions on all well-formed text, every scalar >= U+0020 (DEL aside) typed as bytes decodes to one character event; end to end: every scalar other than blank and the double quote is one token as a command name and as an argument, `-c` is exactly the short option c for every scalar but `-`, a line consisting of the character is recorded whenever it fits and recalled byte for byte. Tie: all 1.1M scalars inside the harness against Rust's char/str, boundary scalars model vs implementation vs Python codec, end-to-end sessions.",
          T % "algebraic laws / round trips, div-mod arithmetic by lia"),
  "C05": ("Theorems: every editor operation (insert of any chars, left, right, remove, clear) on a state representing an ideal editor state does not panic, returns the ideal result and represents the ideal next state, for every buffer size; lifted to all operation sequences from the empty editor; acceptance iff the UTF-8 length fits; a rejected insert changes nothing; through the whole Cli, for every byte, line and cursor are those of the ideal line after the decoded event. Tie: all op sequences up to a length for buffer sizes 0..8 + random, implementation vs extracted ideal editor (direct oracle) and vs model; sessions through the Cli.",
          T % "refinement to an ideal editor, simulation relation, induction over operation lists"),
